@@ -135,6 +135,9 @@ def bad_values(T, rnd):
 def run(ctx):
     import zigpy.types as zt
     import enum
+    # a list parameter that was changed in place between two uses: the command carries the content the list has now
+    from props import c16
+    c16.run_list_mutation(ctx)
     r = ctx.rng
     tab = codecio.table()
     ctx.rule = ("all 145 classes x %d generated assignments each (type-directed: integer boundaries, every enum / "
